@@ -43,7 +43,10 @@ let () = Reg.register "c03.tables" (fun inp out ->
             Stdlib.List.length incoming > 1
           | None -> false)) (Stdlib.List.init nin (fun i -> i)) in
     let classify v = if shared_final && v <> "ok" then "bad:shared-final-state-eoi-pollution" else v in
-    let verdict = classify (
+    (* the proved-sound certificate (Props/C03.v, C03_lalr_la_exact): the reference automaton consists of
+       LR(0)-valid item sets and its lookahead table is stable, hence exactly LALR(1) *)
+    let certified = LalrCert.ref_cert g ref_fuel in
+    let verdict = if not certified then "bad:reference-construction-not-certified-LALR1" else classify (
       if Stdlib.List.length go_states <> Stdlib.List.length ro.ro_views then "bad:number-of-states-differs-from-the-LR0-collection" else begin
         let bad = ref "ok" in
         Stdlib.List.iter2 (fun gs v ->
